@@ -251,6 +251,56 @@ def build(ctx):
 
         obs.append(Obligation(f"{tag}.step.mesh_ratio", f"{cls}: kt_h2[j] == (t[i+1] - t[i]) * C(nx) * alpha_s(previous level at j) with one positive mesh constant C(nx) for the whole run (frac-face node: diffusivity at m_f[i]); C(nx) involves no integer arithmetic that a fixed-width numpy node count could overflow", mesh, fq, "SMT", mesh_replay))
 
+        def dt_exact(cls=cls, mkstep=mkstep):
+            """floating point: the time increment enters the mesh numbers as the difference of two STORED times (one exactly
+            rounded subtraction).  Any sum in kt_h2 whose operands are computed quantities of opposite sign amplifies their
+            rounding by |operand| / |sum|; if that ratio is unbounded over the admissible time grids (t >> dt), the step is
+            solved with an increment that is not this step's increment at rounding level."""
+            S = mkstep()
+            s_, b_ = S.single()
+            kj = b_["arg_fn"]((j,))
+            ti, ti1 = tm.app("t", [S.i]), tm.app("t", [tm.add(S.i, tm.const(1))])
+            hyp = list(S.o.pc) + [tm.lt(ti, ti1), tm.gt(ti, tm.rconst(0)), resv.inr(j, S.n)]
+            if cls != "IdealReservoir":
+                hyp += resv.alpha_facts(S, [kj])
+
+            def exact(x):
+                x = x.args[0] if x.op == "neg" else x
+                if x.op == "*" and len(x.args) == 2 and any(tm.is_const(a_) for a_ in x.args):
+                    x = [a_ for a_ in x.args if not tm.is_const(a_)][0]
+                return tm.is_const(x) or (x.op == "app" and x.args[0] == "t") or x.op == "var"
+
+            for nd in tm.postorder(kj):
+                if nd.op != "+" or nd.sort != tm.R:
+                    continue
+                ops = list(tm.children(nd))
+                if all(exact(o_) for o_ in ops):
+                    continue
+                if not any(a_.args[0] == "t" for a_ in tm.apps(nd)):
+                    continue  # only sums that carry the time increment
+                for o_ in ops:
+                    if exact(o_):
+                        continue
+                    big = tm.gt(tm.absv(o_), tm.mul(tm.rconst(10 ** 6), tm.absv(nd)))
+                    v = be.prove_smt(tm.lnot(big), hyp, timeout_ms=20000, want={"t_i": ti, "t_i+1": ti1, "operand": o_, "sum": nd})
+                    if v.status == be.REFUTED:
+                        v.detail = (f"catastrophic cancellation in the mesh number: the computed operand {o_} is subtracted from a computed operand of the same size (sum {nd}); its rounding error is amplified by |operand|/|sum|, unbounded for t >> dt: "
+                                    "the time increment used is not the float difference of the two stored times. " + v.detail)
+                        return with_models(v, S.o)
+            return with_models(be.Verdict(be.PROVED, "SMT", detail="every sum carrying the time increment subtracts stored times directly, or has bounded amplification"), S.o)
+
+        def dt_exact_replay(w, cls=cls):
+            from ..rt import c04 as rt
+            import types
+            r_ = rt.run(types.SimpleNamespace(tier="quick", seed=0))
+            vs = [v_ for v_ in r_["violations"] if (v_.get("input") or {}).get("grid", {}).get("kind") == "offset"] or r_["violations"]
+            if vs:
+                v_ = vs[0]
+                return {"reproduced": True, "input": v_.get("input"), "observed": v_.get("observed"), "required": v_.get("required"), "clause": v_.get("clause")}
+            return {"reproduced": False}
+
+        obs.append(Obligation(f"{tag}.step.dt_exact", f"{cls} (floating point): the time increment enters kt_h2 as the float difference of two stored times; no sum of computed operands with unbounded cancellation (t >> dt) carries it", dt_exact, fq, "SMT", dt_exact_replay))
+
         def rows(cls=cls, mkstep=mkstep):
             S = mkstep()
             s_, b_ = S.single()
